@@ -83,3 +83,20 @@ def wrap_keys(k, kc):
     if kc == 'iter':
         return iter(list(k))
     raise ValueError(kc)
+
+
+def fresh_key(k):
+    """an object equal to k but (where CPython allows) not identical to it: tables are keyed maps, so a type name built
+    at run time ('bead-%d' % i, an id read from a file) must address the same entry as the literal used at construction.
+    Multi-character strings and ints outside the small-int cache come out as distinct objects."""
+    if isinstance(k, list):
+        return [fresh_key(x) for x in k]
+    if isinstance(k, tuple):
+        return tuple(fresh_key(x) for x in k)
+    if isinstance(k, str):
+        return ''.join([c for c in k])
+    if isinstance(k, bool):
+        return k
+    if isinstance(k, int):
+        return int(str(k))
+    return k
